@@ -1355,6 +1355,14 @@ impl State {
                     _ => return "bad-op".into(),
                 };
                 let dict = self.dict.clone();
+                let mut flat: Vec<u8> = vec![];
+                for e in &evs {
+                    match e {
+                        crate::sio::REv::Data(b) => flat.extend_from_slice(b),
+                        crate::sio::REv::Eof | crate::sio::REv::Fail | crate::sio::REv::Silent => break,
+                        _ => {}
+                    }
+                }
                 let rt = tokio::runtime::Builder::new_current_thread().enable_io().build().unwrap();
                 rt.block_on(async move {
                     let mut stream = crate::sio::Scripted::new(evs, vec![]);
@@ -1367,7 +1375,11 @@ impl State {
                             Ok(m) => out.push(format!("ok:{}@{}", dump_msg(&m), used)),
                             Err(_) => {
                                 out.push(format!("err@{}", used));
-                                break;
+                                // (as `sdec`: a refusal that took exactly one announced frame leaves the stream at the next)
+                                let announced = if before + 4 <= flat.len() { ((flat[before + 1] as usize) << 16) | ((flat[before + 2] as usize) << 8) | flat[before + 3] as usize } else { 0 };
+                                if !(used == announced && (20..=1048576).contains(&announced)) {
+                                    break;
+                                }
                             }
                         }
                     }
